@@ -73,6 +73,7 @@ def run(ctx):
     _parse_model(ctx)
     _parse_pure(ctx)
     _emit_model(ctx)
+    _value_param(ctx)
     _wire_models(ctx)
     _registry_names(ctx)
     _codec(ctx)
@@ -102,6 +103,22 @@ def _parse_model(ctx):
               "every decoded value added under its parsed name, in order",
               "comma-separated FREEBUSY values each decoded",
               "multiple=True returns all top-level components, else the only one"))
+
+
+def _value_param(ctx):
+    """If the parser lets a VALUE parameter pick the codec of an untyped (X-/IANA) property, the codec
+    it picks accepts every RFC form of that value type (parse-loop probe + the real decoders, E7)."""
+    from .. import parseloop
+    fi = ctx.model.func("cal.Component.from_ical")
+    n, bad, chosen = parseloop.value_probe(ctx)
+    switched = sorted(k for k, v in chosen.items() if k and v != chosen[None])
+    ctx.check(not bad, "C01/VALUE-PARAM", "codec chosen from the VALUE parameter accepts the RFC forms",
+              f"an untyped property with VALUE={bad[0][0] if bad else None} is decoded by "
+              f"{bad[0][1] if bad else None}, which rejects the RFC-valid value {bad[0][2] if bad else None!r} "
+              f"({bad[0][3] if bad else None}): the line is dropped (VEVENT) or the parse fails, where it was "
+              f"kept as text [{len(bad)} value forms: {[(b[0], b[2]) for b in bad][:6]}]", fi.loc(),
+              witness={"line": f"X-PROBE;VALUE={bad[0][0]}:{bad[0][2]}"} if bad else None,
+              detail=f"{n} probes; VALUE switches the codec for {switched or 'no value type'}")
 
 
 def _wire_models(ctx):
